@@ -195,24 +195,12 @@ def montecarlo(ctx):
     if not ctx.anchor("LinearFourRates._sim_bounds", "weight vector repeated into the simulation matrix (np.repeat)", len(rp) == 1 and rp[0].args):
         return
     pr = rp[0].args[0]
-    pa = pr.single_atom()
-    ok = False
-    ex = None
-    if pa is not None and pa[0] == "comp":
-        elt = pa[2][0].single_atom()
-        if elt is not None and elt[0] == "pow" and elt[1] == eta and (elt[2].single_atom() or ("",))[0] == "sub":
-            ex = elt[2].single_atom()[1]
-            ra = pa[3][0].single_atom()
-            ok = ra is not None and ra[0] == "call" and ra[1] == "range" and tuple(ra[2]) == (N,) and (elt[2].single_atom()[2].single_atom() or ("",))[0] == "idx"
-    ctx.ob("FRM", "LinearFourRates._sim_bounds", "weights are eta ** (N - i)", ok, q.short(pr, 120))
-    ea = ex.single_atom() if ex is not None else None
-    ok = False
-    if ea is not None and ea[0] == "comp":
-        elt, its = ea[2][0], ea[3]
-        ra = its[0].single_atom() if its else None
-        ix = [x for x in elt.atoms() if x[0] == "idx"]
-        ok = ra is not None and ra[0] == "call" and ra[1] == "range" and tuple(ra[2]) == (const(1), N + const(1)) and len(ix) == 1 and T.same(elt, N - atom(ix[0]))
-    ctx.ob("FRM", "LinearFourRates._sim_bounds", "weights have exponents N - i for i = 1..N", ok, q.short(ex, 120) if ex is not None else "")
+    ce = q.comp_elem(pr)
+    want = atom(("pow", eta, N - const(1) - q.POS))
+    ctx.ob("FRM", "LinearFourRates._sim_bounds", "weights are eta ** (N - i)", ce is not None and (ce[0] == want or T.same(ce[0], want)),
+           q.short(ce[0] if ce else pr, 120))
+    ctx.ob("FRM", "LinearFourRates._sim_bounds", "weights have exponents N - i for i = 1..N", ce is not None and T.same(ce[1], N),
+           "position j of the weight vector holds %s, its length is %s" % ((q.short(ce[0], 80), q.short(ce[1], 40)) if ce else ("?", "?")))
     # get_Rj
     fi = ctx.prog.method("LinearFourRates", "_sim_bounds").nested.get("get_Rj")
     ctx.require(fi is not None, "_sim_bounds.get_Rj")
@@ -359,11 +347,11 @@ def steps(ctx):
     tr = _upd(ctx)
     ssr0 = A("_samples_since_reset")
     ssr = ssr0 + const(1)
-    lp = [e for e in tr.of("loop") if e.func.qualname == U]
+    lp = [e for e in tr.of("loop") if q.stack_has(e, U)]
     first_call = [e for e in tr.calls() if e.callee[0] == "closure" and e.callee[1].endswith("_calculate_rate_bounds")]
     barrier = min([e.seq for e in lp + first_call] or [10 ** 9])
     for attr, kind in (("_r_stat", "copy"), ("_p_table", "copy"), ("_warning_states", "false"), ("_alarm_states", "false")):
-        mu = [e for e in tr.mutations(attr) if e.how == "method:update" and e.func.qualname == U]
+        mu = [e for e in tr.mutations(attr) if e.how == "method:update" and q.stack_has(e, U)]
         ok = len(mu) == 1
         why = "found %d dict.update calls" % len(mu)
         if ok:
@@ -392,7 +380,8 @@ def steps(ctx):
         ctx.ob("FRM", U, "the stored rate is the rate of the incremented matrix for the same key", rate is not None and e.value == q.sub(rets[1], rate),
                q.short(e.value, 100), e)
     dm = [e for e in tr.mutations("_denominators") if e.how == "setitem"]
-    dret = [x.d.get("value") for x in tr.events if x.kind == "exit" and x.d.get("fi") is not None and x.fi.name == "_get_four_denominators"]
+    R4 = "LinearFourRates._get_four_rates"  # the rates may themselves be computed from the denominators: those inner calls are not the per-rate refresh
+    dret = [x.d.get("value") for x in tr.events if x.kind == "exit" and x.d.get("fi") is not None and x.fi.name == "_get_four_denominators" and not q.stack_has(x, R4)]
     ctx.ob("ROLE", U, "the denominator is refreshed per rate", len(dm) == 1 and len(dret) >= 1, "")
     cs = q.find_calls(tr, "LinearFourRates._update_bounds_dict")
     if len(dm) == 1 and dret and rate is not None:
@@ -401,7 +390,7 @@ def steps(ctx):
         okk = key is not None and T.same(key - rate, const("_N")) if key is not None else False
         ctx.ob("AGREE-denom", U, "the denominator is stored under <rate>_N", okk, q.short(key, 60) if key is not None else "", e)
         ctx.ob("AGREE-denom", U, "and is the denominator of the same rate in the incremented matrix", key is not None and e.value == q.sub(dret[0], key), q.short(e.value, 100), e)
-        dc = [x for x in tr.calls() if x.callee == ("static", "LinearFourRates._get_four_denominators")]
+        dc = [x for x in tr.calls() if x.callee == ("static", "LinearFourRates._get_four_denominators") and not q.stack_has(x, R4)]
         ctx.ob("FWD", U, "denominators are computed from the incremented matrix", bool(dc) and all(T.mentions(x.args[0], lambda z: z[0] == "mutated") for x in dc), "")
         if len(cs) == 1 and len(cs[0].args) == 4:
             a = cs[0].args
@@ -476,7 +465,7 @@ def cache_complete(ctx):
     for e in sims:
         after = [x for x in ts.events[e.seq:] if x.kind in ("mutate", "localmut", "local") and len(x.pc) >= len(e.pc) and x.pc[: len(e.pc)] == e.pc]
         k_denom = any((x.kind in ("localmut", "mutate") and any(p[1] == P("r_curr_denom") for p in x.path)) or
-                      (x.kind == "local" and _dict_items(x.value) and any(k == P("r_curr_denom") for k, _v in _dict_items(x.value))) for x in after)
+                      (x.kind in ("local", "mutate") and isinstance(x.d.get("value"), T.R) and _dict_items(x.value) and any(k == P("r_curr_denom") for k, _v in _dict_items(x.value))) for x in after)
         k_rate = any(x.kind == "mutate" and x.attr == "_bounds" and any(p[1] == P("r_est_rate") for p in x.path) for x in after) or \
             any(x.kind == "localmut" and any(p[1] == P("r_curr_denom") for p in x.path) and _from_bounds(x.old) for x in after if isinstance(x.d.get("old"), T.R))
         ctx.ob("AGREE-cache", "LinearFourRates._update_bounds_dict", "a simulated result is stored under the rounded denominator on its path", k_denom, "", e)
